@@ -2047,6 +2047,8 @@ class Exec(object):
             return o[lo:hi]
         if isinstance(o, PList) and all(x is None or isinstance(x, int) for x in (lo, hi)):
             return PList(o.items[lo:hi])
+        if isinstance(o, SList) and st is None and all(x is None or is_intlike(x) for x in (lo, hi)):
+            return self.engine.slist_slice(self, o, lo, hi)
         if isinstance(o, Obj):
             raise Unsupported("slice of object")
         if is_strlike(o):
